@@ -83,3 +83,10 @@ func bigStr(b *big.Int) string {
 	}
 	return b.String()
 }
+
+func b01(b bool) string {
+	if b {
+		return "1"
+	}
+	return "0"
+}
